@@ -343,7 +343,22 @@ def analyse(res, name, out, findings, model=True, oracle_prefixes=(), as_props=(
             for i in range(n):
                 if mo[i] != impl[i]:
                     res.corr_mismatch += 1
-                    if any(ops[i].startswith(pfx) for pfx in oracle_prefixes):
+                    hit = [pfx for pfx in oracle_prefixes if ops[i].startswith(pfx.split("=>")[0])]
+                    if hit and "=>" in hit[0]:
+                        # an ENCODER op whose Lean model is proved equal to the specification's bits
+                        # (e.g. C20 gorilla_is_spec): the op with the implementation's bytes is a
+                        # concrete input on which the implementation is not bit-exact.
+                        sig = hit[0].split("=>")[1]
+                        res.violation("impl-violation", sig,
+                                      "case %s: op %s: implementation=%s | specification (model)=%s" %
+                                      (case_of[i], ops[i][:200], impl[i][:200], mo[i][:200]),
+                                      {"signature": sig, "case": case_of[i], "op": ops[i][:200000],
+                                       "implementation": impl[i][:20000], "model": mo[i][:20000],
+                                       # the operations of the case up to the differing one (the values
+                                       # that were encoded): feed them to stefmodel / the harness to replay
+                                       "ops": ops[max(case_start.get(case_of[i], i), i - 400):i + 1]})
+                        continue
+                    if hit:
                         # the model's answer IS the property oracle here (e.g. the independent
                         # specification decoder run on bytes the real writer produced): the op
                         # line itself is a concrete failing input.
